@@ -1,49 +1,521 @@
------------------------------- MODULE Fmt ------------------------------
-(* C05, part (b): the comment placer of `ucg fmt`.                           *)
-(*                                                                          *)
-(* Code transcribed:                                                        *)
-(*   tokenizer/mod.rs:535-596   comment groups -> CommentMap (keyed by the  *)
-(*                              line of the group's LAST comment)           *)
-(*   printer/mod.rs:50-55       with_comment_map: pending = reversed keys   *)
-(*   printer/mod.rs:82-130      print_comment_group, render_missed_comments,*)
-(*                              render_comment_if_needed, has_comment       *)
-(*   printer/mod.rs:575-633     render_stmt (prefix newline), render (tail) *)
-(*                                                                          *)
-(* A LAYOUT is the line skeleton of a source file: per line what code sits  *)
-(* on it (a statement head "s", an inner node "n" of the statement above,   *)
-(* or nothing "-") and whether a comment ends the line.  The machine runs   *)
-(* the tokenizer's grouping, then the printer's visits one loop iteration   *)
-(* per step, then - when every comment of the output sits on a line of its  *)
-(* own between statements - lays the output out again and formats it a      *)
-(* second time.                                                             *)
-(*                                                                          *)
-(* Which AST nodes call what (printer/mod.rs, transcribed into Visits):     *)
-(*   render_comment_if_needed(line)  ["need": flush every group <= line]    *)
-(*     render_stmt (stmt.pos), render_expr (every expression, expr.pos),    *)
-(*     list element, call argument, cast target, tuple/copy/select/module   *)
-(*     field (name line, and value line when different)                     *)
-(*   has_comment(l) => render_missed_comments(l)  ["guard": flush every     *)
-(*     group <= l iff some group < l]                                       *)
-(*     Range (end.pos, BEFORE start is printed), Select (val.pos, then      *)
-(*     default.pos, before `select`), Import/Include (path.pos), Not (pos)  *)
-(*   has_comment(l) only for layout (newline / indent, no emission):        *)
-(*     Binary right operand, TRACE, fail, format single argument, first     *)
-(*     list-form format argument, map/filter/reduce arguments, Grouped      *)
-(*   render(): after the last statement render_missed_comments(max key + 1) *)
+-------------------------------- MODULE Fmt --------------------------------
+(* C05 - formatting a file never changes its meaning or loses its comments.   *)
+(*                                                                            *)
+(* Part (a), Canon: the text AstPrinter::render writes for an AST without     *)
+(* comments, one clause per arm of src/ast/printer/mod.rs:132-633, as a       *)
+(* sequence of characters; checked over an exhaustively enumerated bounded    *)
+(* AST domain (all parser-producible trees of the forms below over small      *)
+(* pools, every literal class of the quantifier) for                          *)
+(*   Injective : Canon(a) = Canon(b) => Same(a, b)   (Same ignores field-name *)
+(*               quoting; the domain carries no positions)                    *)
+(*   Relexes   : every literal and every bare field name of Canon(a) is read  *)
+(*               back by the tokenizer/number/string rules as what it was     *)
+(* which together stand for Parse(Canon(a)) ~ a without a parser in TLA+.     *)
+(*                                                                            *)
+(* Part (b), the comment placer: see below.                                   *)
+(*                                                                            *)
+(* Recorded defects of the code are NAMED DEVIATIONS (constant Deviations):   *)
+(*   RangeStepColons         printer/mod.rs:507-512 writes start `:` `:` step *)
+(*                           end  (0:2:10 -> 0::210)                          *)
+(*   FloatNoFraction         printer/mod.rs:204 `{}` of an f64 without        *)
+(*                           fraction has no `.`  (1.0 -> 1, 1e20 -> digits)  *)
+(*   BareFieldNotAWord       printer/mod.rs:65-80 is_bareword admits names    *)
+(*                           the tokenizer does not read as one word (`_a`,   *)
+(*                           `NULL`, `truex`)                                 *)
+(*   BlankCommentPadded, KeywordSwallowsComment   (part (b))                  *)
+(* The design (Deviations = {}) satisfies every invariant; each deviation     *)
+(* alone breaks one (Fmt_*dev*.cfg).                                          *)
 EXTENDS Naturals, Sequences, FiniteSets, TLC, Json, SequencesExt
 
-CONSTANTS MaxL,        \* lines of a layout
+CONSTANTS Deviations,  \* deviations the model-checked design runs under ({} = the design)
+          KnownDevs,   \* recorded deviations of the code: used for the code-faithful prediction
+          (* part (a) *)
+          DomSize,     \* 0 (part (b) only), 1, 2, 3: which bounded AST domain
+          Blocks,      \* fan-out of the generator (parallelism only)
+          (* part (b) *)
+          MaxL,        \* lines of a layout
           MaxStmts,    \* statements of a layout
           MaxCmts,     \* comments of a layout
           Spices,      \* which single extras a layout may carry: "frag", "glue", "look"
-          Deviations,  \* deviations the model-checked machine runs under ({} = the design)
-          KnownDevs,   \* recorded deviations of the code: used for the code-faithful prediction
           EmitEvery,   \* REPLAY lines are printed for the layouts with LayHash % EmitEvery = EmitPhase
           EmitPhase
 
-VARIABLE m
-pvars == << m >>
+VARIABLES blk, idx,    \* part (a): generator position in the AST domain
+          m            \* part (b): the placer machine (0 in part (a) configurations)
 
+(* ========================================================================== *)
+(* Part (a): Canon                                                            *)
+(* ========================================================================== *)
+(* Text is a sequence of one-character strings; the characters whose class    *)
+(* matters are atoms: "LF" "CR" "TAB" "DQ" (double quote) "BS" (backslash)     *)
+(* "NA2" "NA3" "NA4" (a 2/3/4-byte UTF-8 character).  Names are sequences of  *)
+(* chunks (a chunk is a run of letters such as "a", "NULL", "true", or one    *)
+(* other character).                                                          *)
+Chars(str) == [i \in 1..Len(str) |-> SubSeq(str, i, i)]
+IndentSize == 4
+Sp(n) == [i \in 1..n |-> " "]
+RECURSIVE Flat(_)
+Flat(ss) == IF ss = << >> THEN << >> ELSE Head(ss) \o Flat(Tail(ss))
+
+(* ---- values of literals ---------------------------------------------------- *)
+Null == [t |-> "null"]
+BoolV(b) == [t |-> "bool", b |-> b]
+IntV(i) == [t |-> "int", i |-> i]
+FloatV(fn, fk) == [t |-> "float", fn |-> fn, fk |-> fk]      \* fn / 2^fk
+FloatC(c) == [t |-> "float", cls |-> c]                      \* "big" = 1e20, "tiny" = 2^-30
+StrV(cs) == [t |-> "str", s |-> cs]
+IsCls(v) == "cls" \in DOMAIN v
+
+(* ---- AST constructors (the record shapes of Gen.tla, extended) -------------- *)
+Lit(v) == [e |-> "lit", v |-> v]
+Sym(n) == [e |-> "sym", nm |-> n]
+Fld(n, q, con, x) == [nm |-> n, q |-> q, con |-> con, ex |-> x]
+TupE(fs) == [e |-> "tuple", flds |-> fs]
+ListE(xs) == [e |-> "list", xs |-> xs]
+Bin(o, l, r) == [e |-> "bin", op |-> o, l |-> l, r |-> r]
+Un(k, x) == [e |-> k, x |-> x]                               \* not fail trace grp
+CastE(ty, x) == [e |-> "cast", ty |-> ty, x |-> x]
+CallE(f, as) == [e |-> "call", fn |-> f, args |-> as]
+CopyE(sel, fs) == [e |-> "copy", sel |-> sel, flds |-> fs]
+RangeE(lo, st, hi) == [e |-> "range", lo |-> lo, step |-> st, hi |-> hi]
+FmtE(form, tpl, as) == [e |-> "fmt", form |-> form, tpl |-> tpl, args |-> as]
+FuncE(ps, body) == [e |-> "func", ps |-> ps, body |-> body]        \* ps: << [nm, con] >>
+SelE(x, d, fs) == [e |-> "select", x |-> x, dflt |-> d, flds |-> fs]
+FopE(k, f, acc, tgt) == [e |-> "fop", kind |-> k, fn |-> f, acc |-> acc, tgt |-> tgt]
+ModE(ps, out, oc, body) == [e |-> "module", ps |-> ps, out |-> out, outcon |-> oc, body |-> body]
+ConvE(f, x) == [e |-> "convert", fmt |-> f, x |-> x]
+ImpE(p) == [e |-> "import", path |-> p]
+IncE(ty, p) == [e |-> "include", ty |-> ty, path |-> p]
+ConE(arms) == [e |-> "constraint", arms |-> arms]
+ArmR(lo, hi) == [a |-> "range", lo |-> lo, hi |-> hi]
+ArmS(x) == [a |-> "shape", x |-> x]
+LetS(n, con, x) == [s |-> "let", nm |-> n, con |-> con, x |-> x]
+ExprS(x) == [s |-> "expr", x |-> x]
+AssertS(x) == [s |-> "assert", x |-> x]
+OutS(f, x) == [s |-> "out", fmt |-> f, x |-> x]
+ConS(n, x) == [s |-> "constraint", nm |-> n, x |-> x]
+
+(* ---- literal text: render_value, printer/mod.rs:196-211 ---------------------- *)
+DigitCh(d) == SubSeq("0123456789", d + 1, d + 1)
+RECURSIVE Digits(_)
+Digits(n) == IF n < 10 THEN << DigitCh(n) >> ELSE Append(Digits(n \div 10), DigitCh(n % 10))
+RECURSIVE Pow2(_)
+Pow2(k) == IF k = 0 THEN 1 ELSE 2 * Pow2(k - 1)
+RECURSIVE FracDigits(_, _)
+FracDigits(r, d) == IF r = 0 THEN << >> ELSE << DigitCh((r * 10) \div d) >> \o FracDigits((r * 10) % d, d)
+
+(* `{}` of an f64 is the shortest decimal that reads back as the same f64, in     *)
+(* positional notation, WITHOUT a fraction when the value is integral.  For the  *)
+(* dyadics of the pools the exact expansion is that shortest decimal.            *)
+(* Design: an integral float keeps `.0`, so that it is read back as a float.     *)
+FloatText(v, devs) ==
+  LET noFrac == IF "FloatNoFraction" \in devs THEN << >> ELSE << ".", "0" >>
+  IN IF IsCls(v)
+       THEN (IF v.cls = "big" THEN Chars("100000000000000000000") \o noFrac
+             ELSE Chars("0.0000000009313225746154785"))
+       ELSE LET d == Pow2(v.fk)
+            IN Digits(v.fn \div d) \o (IF v.fn % d = 0 THEN noFrac ELSE << "." >> \o FracDigits(v.fn % d, d))
+
+(* escape_quotes, printer/mod.rs:181-194 *)
+RECURSIVE Escape(_)
+Escape(cs) == IF cs = << >> THEN << >>
+              ELSE (IF Head(cs) = "DQ" THEN << "BS", "DQ" >> ELSE IF Head(cs) = "BS" THEN << "BS", "BS" >> ELSE << Head(cs) >>)
+                   \o Escape(Tail(cs))
+Quoted(cs) == << "DQ" >> \o Escape(cs) \o << "DQ" >>
+
+LitText(v, devs) ==
+  CASE v.t = "null" -> Chars("NULL")
+    [] v.t = "bool" -> IF v.b THEN Chars("true") ELSE Chars("false")
+    [] v.t = "int" -> Digits(v.i)
+    [] v.t = "float" -> FloatText(v, devs)
+    [] v.t = "str" -> Quoted(v.s)
+
+(* ---- field names: is_bareword (printer/mod.rs:65-80) vs the tokenizer --------- *)
+AsciiLetters == { SubSeq("abcdefghijklmnopqrstuvwxyzABCDEFGHIJKLMNOPQRSTUVWXYZ", i, i) : i \in 1..52 }
+IsLetters(c) == c \in AsciiLetters \cup {"NULL", "true", "false"}
+IsDigitCh(c) == c \in {"0", "1", "2", "3", "4", "5", "6", "7", "8", "9"}
+(* printer: non-empty, every character an ASCII letter or `_` *)
+PrinterBare(nm) == nm # << >> /\ \A j \in 1..Len(nm) : IsLetters(nm[j]) \/ nm[j] = "_"
+(* tokenizer (tokenizer/mod.rs:122-133, 150-165, 449-512): one BAREWORD token iff an  *)
+(* ASCII letter followed by letters, digits, `-`, `_`; but NULL / true / false are  *)
+(* recognised first and without a word boundary, and only a whole `true` / `false`   *)
+(* (a BOOLEAN token) is still accepted as a field name                               *)
+LexesAsWord(nm) ==
+  /\ nm # << >> /\ IsLetters(nm[1])
+  /\ \A j \in 1..Len(nm) : IsLetters(nm[j]) \/ IsDigitCh(nm[j]) \/ nm[j] \in {"-", "_"}
+  /\ (nm[1] \in {"NULL", "true", "false"} => nm \in {<< "true" >>, << "false" >>})
+NameBare(nm, devs) == PrinterBare(nm) /\ ("BareFieldNotAWord" \in devs \/ LexesAsWord(nm))
+(* names are chunk sequences; their text is the chunks' characters *)
+NameText(nm) == Flat([j \in 1..Len(nm) |-> Chars(nm[j])])
+FieldText(nm, devs) == IF NameBare(nm, devs) THEN NameText(nm) ELSE Quoted(NameText(nm))
+
+(* ---- the printer, arm by arm ----------------------------------------------------- *)
+OpText(o) ==
+  CASE o = "and" -> " && " [] o = "or" -> " || " [] o = "dot" -> "." [] o = "eq" -> " == " [] o = "ne" -> " != "
+    [] o = "ge" -> " >= " [] o = "le" -> " <= " [] o = "gt" -> " > " [] o = "lt" -> " < " [] o = "add" -> " + "
+    [] o = "sub" -> " - " [] o = "mul" -> " * " [] o = "div" -> " / " [] o = "mod" -> " %% " [] o = "in" -> " in "
+    [] o = "is" -> " is " [] o = "re" -> " ~ " [] o = "nre" -> " !~ "
+
+RECURSIVE CE(_, _, _), CFlds(_, _, _), CElems(_, _, _), CArgs(_, _, _, _), CFmtArgs(_, _, _, _),
+          CParams(_, _, _, _), CArms(_, _, _, _), CStmt(_, _, _, _), CBody(_, _, _, _)
+
+(* optional ` :: constraint` *)
+COpt(con, ind, devs) == IF con = << >> THEN << >> ELSE Chars(" :: ") \o CE(con[1], ind, devs)
+
+(* render_tuple_def, printer/mod.rs:153-179: one field per line, trailing comma *)
+CFlds(fs, ind, devs) ==
+  IF fs = << >> THEN Chars("{}")
+  ELSE << "{", "LF" >>
+       \o Flat([j \in 1..Len(fs) |->
+                  Sp(ind + IndentSize) \o FieldText(fs[j].nm, devs) \o COpt(fs[j].con, ind + IndentSize, devs)
+                  \o Chars(" = ") \o CE(fs[j].ex, ind + IndentSize, devs) \o << ",", "LF" >>])
+       \o Sp(ind) \o << "}" >>
+(* render_list_def, printer/mod.rs:132-151 *)
+CElems(xs, ind, devs) ==
+  IF xs = << >> THEN Chars("[]")
+  ELSE << "[", "LF" >>
+       \o Flat([j \in 1..Len(xs) |-> Sp(ind + IndentSize) \o CE(xs[j], ind + IndentSize, devs) \o << ",", "LF" >>])
+       \o Sp(ind) \o << "]" >>
+(* Call arguments, printer/mod.rs:264-285: one per line only when there are two or more *)
+CArgs(as, ind, devs, j) ==
+  IF Len(as) <= 1 THEN (IF as = << >> THEN << >> ELSE CE(as[1], ind + IndentSize, devs))
+  ELSE << "LF" >> \o Flat([q \in 1..Len(as) |-> Sp(ind + IndentSize) \o CE(as[q], ind + IndentSize, devs) \o << ",", "LF" >>])
+       \o Sp(ind)
+(* list-form format arguments, printer/mod.rs:319-338: `(` newline, `,` newline between, `)` glued *)
+CFmtArgs(as, ind, devs, j) ==
+  IF j > Len(as) THEN << >>
+  ELSE (IF j = 1 THEN << >> ELSE << ",", "LF" >>) \o Sp(ind + IndentSize) \o CE(as[j], ind + IndentSize, devs)
+       \o CFmtArgs(as, ind, devs, j + 1)
+(* func parameters, printer/mod.rs:341-361 *)
+CParams(ps, ind, devs, j) ==
+  IF j > Len(ps) THEN << >>
+  ELSE (IF j = 1 THEN << >> ELSE Chars(", ")) \o NameText(ps[j].nm) \o COpt(ps[j].con, ind, devs) \o CParams(ps, ind, devs, j + 1)
+(* constraint arms, printer/mod.rs:548-570 *)
+CArms(arms, ind, devs, j) ==
+  IF j > Len(arms) THEN << >>
+  ELSE (IF j = 1 THEN << >> ELSE Chars(" | "))
+       \o (IF arms[j].a = "range"
+             THEN Chars("in ") \o (IF arms[j].lo = << >> THEN << >> ELSE CE(arms[j].lo[1], ind, devs)) \o Chars("..")
+                  \o (IF arms[j].hi = << >> THEN << >> ELSE CE(arms[j].hi[1], ind, devs))
+             ELSE CE(arms[j].x, ind, devs))
+       \o CArms(arms, ind, devs, j + 1)
+(* module body, printer/mod.rs:477-485: the indent is written BEFORE render_stmt writes the  *)
+(* separating newline, so every statement but the first starts in column 0 after a line of  *)
+(* blanks (cosmetic; transcribed)                                                            *)
+CBody(ss, ind, devs, j) ==
+  IF j > Len(ss) THEN << >>
+  ELSE Sp(ind + IndentSize) \o CStmt(ss[j], j > 1, ind + IndentSize, devs) \o CBody(ss, ind, devs, j + 1)
+
+CE(x, ind, devs) ==
+  CASE x.e = "lit" -> LitText(x.v, devs)
+    [] x.e = "sym" -> NameText(x.nm)
+    [] x.e = "tuple" -> CFlds(x.flds, ind, devs)
+    [] x.e = "list" -> CElems(x.xs, ind, devs)
+    [] x.e = "bin" -> CE(x.l, ind, devs) \o Chars(OpText(x.op)) \o CE(x.r, ind, devs)
+    [] x.e = "cast" -> Chars(x.ty) \o << "(" >> \o CE(x.x, ind, devs) \o << ")" >>
+    [] x.e = "call" -> NameText(x.fn) \o << "(" >> \o CArgs(x.args, ind, devs, 1) \o << ")" >>
+    [] x.e = "copy" -> NameText(x.sel) \o CFlds(x.flds, ind, devs)
+    [] x.e = "trace" -> Chars("TRACE ") \o CE(x.x, ind, devs)
+    [] x.e = "fail" -> Chars("fail ") \o CE(x.x, ind, devs)
+    [] x.e = "not" -> Chars("not ") \o CE(x.x, ind, devs)
+    [] x.e = "grp" -> << "(" >> \o CE(x.x, ind, devs) \o << ")" >>
+    [] x.e = "convert" -> Chars("convert ") \o Chars(x.fmt) \o << " " >> \o CE(x.x, ind, devs)
+    [] x.e = "fmt" -> Quoted(x.tpl) \o Chars(" % ")
+                      \o (IF x.form = "single" THEN CE(x.args[1], ind, devs)
+                          ELSE << "(", "LF" >> \o CFmtArgs(x.args, ind, devs, 1) \o << ")" >>)
+    [] x.e = "func" -> Chars("func (") \o CParams(x.ps, ind, devs, 1) \o Chars(") => ") \o CE(x.body, ind, devs)
+    [] x.e = "fop" -> Chars(x.kind) \o << "(" >> \o CE(x.fn, ind, devs) \o Chars(", ")
+                      \o (IF x.acc = << >> THEN << >> ELSE CE(x.acc[1], ind, devs) \o Chars(", "))
+                      \o CE(x.tgt, ind, devs) \o << ")" >>
+    [] x.e = "import" -> Chars("import ") \o Quoted(x.path)
+    [] x.e = "include" -> Chars("include ") \o Chars(x.ty) \o << " " >> \o Quoted(x.path)
+    [] x.e = "module" -> Chars("module ") \o CFlds(x.ps, ind, devs) \o Chars(" => ")
+                         \o (IF x.out = << >> THEN << >>
+                             ELSE << "(" >> \o CE(x.out[1], ind, devs) \o COpt(x.outcon, ind, devs) \o Chars(") "))
+                         \o << "{", "LF" >> \o CBody(x.body, ind, devs, 1) \o << "}" >>
+    (* Range, printer/mod.rs:497-513.  Design: start `:` step `:` end.                 *)
+    (* RangeStepColons: both colons are written before the step, none after it.       *)
+    [] x.e = "range" -> CE(x.lo, ind, devs) \o << ":" >>
+                        \o (IF x.step = << >> THEN << >>
+                            ELSE IF "RangeStepColons" \in devs THEN << ":" >> \o CE(x.step[1], ind, devs)
+                            ELSE CE(x.step[1], ind, devs) \o << ":" >>)
+                        \o CE(x.hi, ind, devs)
+    [] x.e = "select" -> Chars("select (") \o CE(x.x, ind, devs)
+                         \o (IF x.dflt = << >> THEN << >> ELSE Chars(", ") \o CE(x.dflt[1], ind, devs))
+                         \o Chars(") => ") \o CFlds(x.flds, ind, devs)
+    [] x.e = "constraint" -> CArms(x.arms, ind, devs, 1)
+
+(* render_stmt, printer/mod.rs:575-620 *)
+CStmt(st, pfx, ind, devs) ==
+  (IF pfx THEN << "LF" >> ELSE << >>)
+  \o (CASE st.s = "let" -> Chars("let ") \o NameText(st.nm) \o COpt(st.con, ind, devs) \o Chars(" = ") \o CE(st.x, ind, devs)
+        [] st.s = "expr" -> CE(st.x, ind, devs)
+        [] st.s = "assert" -> Chars("assert ") \o CE(st.x, ind, devs)
+        [] st.s = "out" -> Chars("out ") \o Chars(st.fmt) \o << " " >> \o CE(st.x, ind, devs)
+        [] st.s = "constraint" -> Chars("constraint ") \o NameText(st.nm) \o Chars(" = ") \o CE(st.x, ind, devs))
+  \o << ";", "LF" >>
+(* render, printer/mod.rs:622-633 (no comment map) *)
+Canon(prog, devs) == Flat([j \in 1..Len(prog) |-> CStmt(prog[j], j > 1, 0, devs)])
+
+(* ---- Same: equality up to field-name quoting ---------------------------------------- *)
+RECURSIVE NE(_), NFlds(_), NStmt(_)
+NSeq(xs) == [j \in 1..Len(xs) |-> NE(xs[j])]
+NFlds(fs) == [j \in 1..Len(fs) |-> Fld(fs[j].nm, FALSE, NSeq(fs[j].con), NE(fs[j].ex))]
+NE(x) ==
+  CASE x.e \in {"lit", "sym", "import", "include"} -> x
+    [] x.e = "tuple" -> TupE(NFlds(x.flds))
+    [] x.e = "list" -> ListE(NSeq(x.xs))
+    [] x.e = "bin" -> Bin(x.op, NE(x.l), NE(x.r))
+    [] x.e \in {"not", "fail", "trace", "grp"} -> Un(x.e, NE(x.x))
+    [] x.e = "cast" -> CastE(x.ty, NE(x.x))
+    [] x.e = "call" -> CallE(x.fn, NSeq(x.args))
+    [] x.e = "copy" -> CopyE(x.sel, NFlds(x.flds))
+    [] x.e = "range" -> RangeE(NE(x.lo), NSeq(x.step), NE(x.hi))
+    [] x.e = "fmt" -> FmtE(x.form, x.tpl, NSeq(x.args))
+    [] x.e = "func" -> FuncE([j \in 1..Len(x.ps) |-> [nm |-> x.ps[j].nm, con |-> NSeq(x.ps[j].con)]], NE(x.body))
+    [] x.e = "select" -> SelE(NE(x.x), NSeq(x.dflt), NFlds(x.flds))
+    [] x.e = "fop" -> FopE(x.kind, NE(x.fn), NSeq(x.acc), NE(x.tgt))
+    [] x.e = "module" -> ModE(NFlds(x.ps), NSeq(x.out), NSeq(x.outcon), [j \in 1..Len(x.body) |-> NStmt(x.body[j])])
+    [] x.e = "convert" -> ConvE(x.fmt, NE(x.x))
+    [] x.e = "constraint" -> ConE([j \in 1..Len(x.arms) |->
+                                     IF x.arms[j].a = "range" THEN ArmR(NSeq(x.arms[j].lo), NSeq(x.arms[j].hi))
+                                     ELSE ArmS(NE(x.arms[j].x))])
+NStmt(st) == IF st.s = "let" THEN LetS(st.nm, NSeq(st.con), NE(st.x)) ELSE [st EXCEPT !.x = NE(@)]
+Norm(prog) == [j \in 1..Len(prog) |-> NStmt(prog[j])]
+Same(a, b) == Norm(a) = Norm(b)
+
+(* ---- Relexes: the leaves of the canonical text are read back as what they were ------- *)
+(* number (parse/mod.rs:96-187): DIGIT [. DIGIT]; without `.` it is an i64 or an error     *)
+HasDot(tx) == \E j \in 1..Len(tx) : tx[j] = "."
+ReadsAs(tx) == IF HasDot(tx) THEN "float" ELSE IF Len(tx) > 18 THEN "error" ELSE "int"
+(* escapequoted, tokenizer/mod.rs:50-98, on the text between the quotes *)
+RECURSIVE Unesc(_, _)
+Unesc(cs, esc) ==
+  IF cs = << >> THEN << >>
+  ELSE LET c == Head(cs)
+       IN IF esc THEN << (IF c = "n" THEN "LF" ELSE IF c = "r" THEN "CR" ELSE IF c = "t" THEN "TAB" ELSE c) >> \o Unesc(Tail(cs), FALSE)
+          ELSE IF c = "BS" THEN Unesc(Tail(cs), TRUE)
+          ELSE IF c = "DQ" THEN << "END" >>          \* an unescaped quote would end the literal early
+          ELSE << c >> \o Unesc(Tail(cs), FALSE)
+StrBack(cs) == Unesc(Escape(cs), FALSE) = cs
+LitBack(v, devs) ==
+  CASE v.t \in {"int", "float"} -> ReadsAs(LitText(v, devs)) = v.t
+    [] v.t = "str" -> StrBack(v.s)
+    [] OTHER -> TRUE
+NameBack(nm, devs) == IF NameBare(nm, devs) THEN LexesAsWord(nm) ELSE StrBack(NameText(nm))
+
+RECURSIVE RE(_, _), RStmt(_, _)
+RAll(xs, devs) == \A j \in 1..Len(xs) : RE(xs[j], devs)
+RFlds(fs, devs) == \A j \in 1..Len(fs) : NameBack(fs[j].nm, devs) /\ RAll(fs[j].con, devs) /\ RE(fs[j].ex, devs)
+RE(x, devs) ==
+  CASE x.e = "lit" -> LitBack(x.v, devs)
+    [] x.e = "sym" -> TRUE
+    [] x.e = "tuple" -> RFlds(x.flds, devs)
+    [] x.e = "list" -> RAll(x.xs, devs)
+    [] x.e = "bin" -> RE(x.l, devs) /\ RE(x.r, devs)
+    [] x.e \in {"not", "fail", "trace", "grp", "cast", "convert"} -> RE(x.x, devs)
+    [] x.e = "call" -> RAll(x.args, devs)
+    [] x.e = "copy" -> RFlds(x.flds, devs)
+    [] x.e = "range" -> RE(x.lo, devs) /\ RAll(x.step, devs) /\ RE(x.hi, devs)
+    [] x.e = "fmt" -> StrBack(x.tpl) /\ RAll(x.args, devs)
+    [] x.e = "func" -> (\A j \in 1..Len(x.ps) : RAll(x.ps[j].con, devs)) /\ RE(x.body, devs)
+    [] x.e = "select" -> RE(x.x, devs) /\ RAll(x.dflt, devs) /\ RFlds(x.flds, devs)
+    [] x.e = "fop" -> RE(x.fn, devs) /\ RAll(x.acc, devs) /\ RE(x.tgt, devs)
+    [] x.e = "module" -> RFlds(x.ps, devs) /\ RAll(x.out, devs) /\ RAll(x.outcon, devs)
+                         /\ \A j \in 1..Len(x.body) : RStmt(x.body[j], devs)
+    [] x.e \in {"import", "include"} -> StrBack(x.path)
+    [] x.e = "constraint" -> \A j \in 1..Len(x.arms) :
+                                IF x.arms[j].a = "range" THEN RAll(x.arms[j].lo, devs) /\ RAll(x.arms[j].hi, devs)
+                                ELSE RE(x.arms[j].x, devs)
+RStmt(st, devs) == (IF st.s = "let" THEN RAll(st.con, devs) ELSE TRUE) /\ RE(st.x, devs)
+RelexesP(prog, devs) == \A j \in 1..Len(prog) : RStmt(prog[j], devs)
+
+(* ---- the bounded AST domain ----------------------------------------------------------- *)
+(* Only trees the parser can produce: operands of a binary respect the precedence table     *)
+(* (anything else needs a grp node), a form that takes the rest of the expression (not,    *)
+(* fail, TRACE, convert, func, single-form format) is never the left end of an operator,   *)
+(* range parts are simple values or groups.                                                *)
+OpLvl(o) == CASE o \in {"eq", "ne", "ge", "le", "lt", "gt", "re", "nre"} -> 1 [] o \in {"in", "is"} -> 2
+              [] o \in {"add", "sub"} -> 3 [] o \in {"mul", "div", "mod"} -> 4 [] o \in {"and", "or"} -> 5 [] o = "dot" -> 6
+RECURSIVE EndsGreedy(_)
+EndsGreedy(x) == \/ x.e \in {"not", "fail", "trace", "convert", "func"}
+                 \/ (x.e = "fmt" /\ x.form = "single")
+                 \/ (x.e = "bin" /\ EndsGreedy(x.r))
+WFBin(o, l, r) ==
+  /\ ~EndsGreedy(l)
+  /\ (l.e = "bin" => OpLvl(l.op) >= OpLvl(o))
+  /\ (r.e = "bin" => OpLvl(r.op) > OpLvl(o))
+  (* a number directly before `.` would lex as a float; dot selects by name, string or index *)
+  /\ (o = "dot" => /\ ~(l.e = "lit" /\ l.v.t \in {"int", "float"})
+                   /\ ~(l.e = "range")
+                   /\ (r.e \in {"sym", "grp", "call", "copy"} \/ (r.e = "lit" /\ r.v.t \in {"str", "int"}))
+                   /\ ~(l.e = "bin" /\ l.op = "dot" /\ l.r.e = "lit" /\ l.r.v.t = "int" /\ r.e = "lit" /\ r.v.t = "int"))
+  (* the text `x.1:2`, `1 + 2:3.a` etc. stays out: a range operand next to a dot *)
+  /\ (r.e = "range" => o # "dot")
+
+na == << "a" >>   nb == << "b" >>   nx == << "x" >>   ny == << "y" >>   nf == << "f" >>   nc == << "c" >>
+(* every literal class of the quantifier *)
+IntLits == { IntV(0), IntV(1), IntV(11), IntV(210) }
+FloatLits == { FloatV(1, 0), FloatV(3, 1), FloatV(11, 2), FloatC("big"), FloatC("tiny") }
+StrLits == { StrV(<< >>), StrV(<< "a" >>), StrV(<< "q", "DQ" >>), StrV(<< "BS", "n" >>), StrV(<< "LF" >>), StrV(<< "TAB", "CR" >>),
+             StrV(<< "NA2", "NA3", "NA4" >>), StrV(<< "BS" >>), StrV(<< "/", "/", " ", "c" >>) }
+AllLits == { Lit(v) : v \in IntLits \cup FloatLits \cup StrLits \cup { Null, BoolV(TRUE), BoolV(FALSE) } }
+(* field names: plain, needing quotes, and the ones is_bareword gets wrong *)
+FieldNames == { na, << "b", "1" >>, << "a", "-", "b" >>, << "a", " ", "b" >>, << "_", "a" >>, << "NULL" >>, << "true" >>,
+                << "true", "x" >>, << >>, << "NA2" >>, << "q", "DQ" >>, << "a", "_", "b" >> }
+QChoices(nm) == IF LexesAsWord(nm) THEN {TRUE, FALSE} ELSE {TRUE}      \* in the SOURCE a non-word must have been quoted
+
+A0 == { Lit(IntV(1)), Sym(nx), Lit(StrV(<< "a" >>)) }                  \* children of compound forms
+A1 == { Lit(IntV(1)), Sym(nx) }
+RangeParts == { Lit(IntV(1)), Lit(IntV(11)), Lit(FloatV(1, 0)), Sym(nx), Un("grp", Lit(IntV(1))) }
+OpsSome == { "add", "mul", "eq", "and", "dot", "in" }
+OpsAll == { "eq", "ne", "ge", "le", "lt", "gt", "re", "nre", "in", "is", "add", "sub", "mul", "div", "mod", "and", "or", "dot" }
+NoCon == << >>
+F1(n, x) == Fld(n, FALSE, NoCon, x)
+ConInt == Sym(<< "i", "n", "t" >>)
+ConRange == ConE(<< ArmR(<< Lit(IntV(1)) >>, << Lit(IntV(11)) >>) >>)
+ConAlt == ConE(<< ArmR(<< >>, << Lit(IntV(1)) >>), ArmS(Lit(StrV(<< "a" >>))) >>)
+ConOpen == ConE(<< ArmR(<< Lit(IntV(1)) >>, << >>) >>)
+ConPool == { ConInt, ConRange, ConAlt, ConOpen }
+
+(* one level of every form over the children C (ops: the binary operators used) *)
+Forms(C, ops) ==
+  { Un(k, c) : k \in {"not", "fail", "trace", "grp"}, c \in C }
+  \cup { CastE(ty, c) : ty \in {"int", "str"}, c \in C }
+  \cup { ConvE("json", c) : c \in C }
+  \cup { Bin(o, l, r) : o \in ops, l \in C, r \in C }
+  \cup { RangeE(l, << >>, h) : l \in C \cap RangeParts, h \in C \cap RangeParts }
+  \cup { ListE(<< >>) } \cup { ListE(<< c >>) : c \in C } \cup { ListE(<< c, d >>) : c \in C, d \in C }
+  \cup { TupE(<< >>) } \cup { TupE(<< F1(na, c) >>) : c \in C } \cup { TupE(<< F1(na, c), F1(nb, d) >>) : c \in C, d \in C }
+  \cup { CopyE(nx, << >>) } \cup { CopyE(nx, << F1(na, c) >>) : c \in C }
+  \cup { CallE(nf, << >>) } \cup { CallE(nf, << c >>) : c \in C } \cup { CallE(nf, << c, d >>) : c \in C, d \in C }
+  \cup { FmtE("list", << "@" >>, << c >>) : c \in C } \cup { FmtE("list", << "@", "-", "@" >>, << c, d >>) : c \in C, d \in C }
+  \cup { FmtE("single", << "@", "{", "x", "}" >>, << c >>) : c \in C }
+  \cup { FuncE(ps, c) : ps \in { << >>, << [nm |-> nx, con |-> NoCon] >>, << [nm |-> nx, con |-> NoCon], [nm |-> ny, con |-> NoCon] >> }, c \in C }
+  \cup { SelE(c, << >>, << F1(na, d) >>) : c \in C, d \in C } \cup { SelE(c, << d >>, << F1(na, Lit(IntV(1))) >>) : c \in C, d \in C }
+  \cup { FopE(k, c, << >>, d) : k \in {"map", "filter"}, c \in C, d \in C } \cup { FopE("reduce", c, << d >>, Sym(ny)) : c \in C, d \in C }
+  \cup { ModE(<< >>, << >>, << >>, << LetS(ny, NoCon, c) >>) : c \in C }
+  \cup { ModE(<< F1(na, c) >>, << d >>, << >>, << LetS(ny, NoCon, Lit(IntV(1))) >>) : c \in C, d \in C }
+RECURSIVE LeftEnd(_)
+LeftEnd(x) == IF x.e = "bin" THEN LeftEnd(x.l) ELSE IF x.e = "range" THEN LeftEnd(x.lo) ELSE x
+(* `"t" % (e)` is the LIST form: a single-form argument never starts with a parenthesis *)
+WF(x) == /\ (x.e = "bin" => WFBin(x.op, x.l, x.r))
+         /\ (x.e = "fmt" /\ x.form = "single" => LeftEnd(x.args[1]).e # "grp")
+
+E1 == { x \in Forms(A0, OpsSome) : WF(x) }
+(* second level: every form over (first level + atoms), one compound child at a time *)
+E2(ops) == { x \in { Un(k, c) : k \in {"not", "fail", "trace", "grp"}, c \in E1 }
+                   \cup { CastE("int", c) : c \in E1 } \cup { ConvE("json", c) : c \in E1 }
+                   \cup { Bin(o, c, a) : o \in ops, c \in E1, a \in A1 } \cup { Bin(o, a, c) : o \in ops, c \in E1, a \in A1 }
+                   \cup { ListE(<< c >>) : c \in E1 } \cup { TupE(<< F1(na, c) >>) : c \in E1 }
+                   \cup { CallE(nf, << c, Sym(nx) >>) : c \in E1 } \cup { FmtE("list", << "@" >>, << c >>) : c \in E1 }
+                   \cup { FmtE("single", << "@", "{", "x", "}" >>, << c >>) : c \in E1 }
+                   \cup { FuncE(<< [nm |-> nx, con |-> NoCon] >>, c) : c \in E1 }
+                   \cup { SelE(Sym(nx), << c >>, << F1(na, Lit(IntV(1))) >>) : c \in E1 }
+                   \cup { SelE(Sym(nx), << >>, << F1(na, c) >>) : c \in E1 }
+                   \cup { FopE("map", c, << >>, Sym(ny)) : c \in E1 }
+                   \cup { ModE(<< >>, << c >>, << >>, << LetS(ny, NoCon, Lit(IntV(1))) >>) : c \in E1 }
+                   \cup { RangeE(Un("grp", c), << >>, Lit(IntV(1))) : c \in E1 }
+             : WF(x) }
+
+(* families of programs *)
+PLits == { << ExprS(l) >> : l \in AllLits } \cup { << LetS(na, NoCon, l) >> : l \in AllLits }
+PRanges == { << ExprS(RangeE(l, << >>, h)) >> : l \in RangeParts, h \in RangeParts }
+           \cup { << ExprS(RangeE(l, << s >>, h)) >> : l \in RangeParts, s \in RangeParts, h \in RangeParts }
+PNames == { << ExprS(TupE(<< Fld(n, q, NoCon, Lit(IntV(1))) >>)) >> : n \in FieldNames, q \in {TRUE, FALSE} }
+          \cup { << ExprS(SelE(Sym(nx), << >>, << Fld(n, q, NoCon, Lit(IntV(1))) >>)) >> : n \in FieldNames, q \in {TRUE, FALSE} }
+          \cup { << ExprS(CopyE(nx, << Fld(n, q, NoCon, Lit(IntV(1))), Fld(na, FALSE, NoCon, Sym(nx)) >>)) >> : n \in FieldNames, q \in {TRUE, FALSE} }
+PNamesOK == { p \in PNames : p[1].x.flds[1].q \in QChoices(p[1].x.flds[1].nm) }
+PStrs == { << ExprS(ImpE(v.s)) >> : v \in StrLits } \cup { << ExprS(IncE("str", v.s)) >> : v \in StrLits }
+         \cup { << ExprS(FmtE("list", v.s, << Lit(IntV(1)) >>)) >> : v \in StrLits }
+PCons == { << LetS(na, << c >>, Lit(IntV(1))) >> : c \in ConPool } \cup { << ConS(nc, c) >> : c \in ConPool \ { ConInt } }
+         \cup { << ExprS(TupE(<< Fld(na, FALSE, << c >>, Lit(IntV(1))) >>)) >> : c \in ConPool }
+         \cup { << ExprS(FuncE(<< [nm |-> nx, con |-> << c >>] >>, Sym(nx))) >> : c \in ConPool }
+         \cup { << ExprS(FuncE(<< [nm |-> nx, con |-> << c >>], [nm |-> ny, con |-> << ConInt >>] >>, Sym(nx))) >> : c \in ConPool }
+         \cup { << ExprS(ModE(<< >>, << Sym(ny) >>, << c >>, << LetS(ny, NoCon, Lit(IntV(1))) >>)) >> : c \in ConPool }
+PStmts(E) == { << ExprS(x) >> : x \in E } \cup { << LetS(na, NoCon, x) >> : x \in E }
+PKinds(E) == { << AssertS(x) >> : x \in E } \cup { << OutS("json", x) >> : x \in E }
+PTwo == { << s1, s2 >> : s1 \in { ExprS(Sym(nx)), LetS(na, NoCon, Lit(IntV(1))) },
+                         s2 \in { ExprS(Sym(ny)), OutS("json", Sym(nx)), AssertS(Sym(nx)), ConS(nc, ConRange),
+                                  ExprS(ModE(<< >>, << >>, << >>, << LetS(nx, NoCon, Lit(IntV(1))), LetS(ny, NoCon, Sym(nx)) >>)) } }
+POps == { << ExprS(Bin(o, Sym(nx), Sym(ny))) >> : o \in OpsAll }
+        \cup { << ExprS(x) >> : x \in { b \in { Bin(o, Bin(p, Sym(nx), Sym(ny)), Lit(IntV(1))) : o \in OpsAll, p \in OpsAll } : WF(b) } }
+        \cup { << ExprS(x) >> : x \in { b \in { Bin(o, Sym(nx), Bin(p, Sym(ny), Lit(IntV(1)))) : o \in OpsAll, p \in OpsAll } : WF(b) } }
+        \cup { << ExprS(x) >> : x \in { b \in { Bin(o, Un("grp", Bin(p, Sym(nx), Sym(ny))), Lit(IntV(1))) : o \in OpsAll \ {"dot"}, p \in OpsAll } : WF(b) } }
+
+DomBase == PLits \cup PRanges \cup PNamesOK \cup PStrs \cup PCons \cup PTwo \cup POps \cup PStmts(A0 \cup E1) \cup PKinds(A0)
+DomOf(size) == IF size = 0 THEN {} ELSE IF size = 1 THEN DomBase
+               ELSE IF size = 2 THEN DomBase \cup PStmts(E2({"add", "dot"}))
+               ELSE DomBase \cup PStmts(E2(OpsSome)) \cup PKinds(E1)
+
+DomSeq == TLCEval(SetToSeq(DomOf(DomSize)))
+NDom == Len(DomSeq)
+CanonSeq == TLCEval([i \in 1..NDom |-> Canon(DomSeq[i], Deviations)])
+NormSeq == TLCEval([i \in 1..NDom |-> Norm(DomSeq[i])])
+(* candidates for a collision: the programs whose canonical text has the same length *)
+LenSet == { Len(CanonSeq[i]) : i \in 1..NDom }
+Bucket == TLCEval([n \in LenSet |-> { i \in 1..NDom : Len(CanonSeq[i]) = n }])
+
+(* generator: fan out over blocks, then over the programs of the block *)
+CanonInit == blk = 0 /\ idx = 0 /\ m = 0
+CanonNext == /\ \/ blk = 0 /\ blk' \in 1..Blocks /\ idx' = 0
+                \/ blk > 0 /\ idx = 0 /\ idx' \in { i \in 1..NDom : i % Blocks = blk % Blocks } /\ blk' = blk
+             /\ UNCHANGED m
+
+Rivals(i) == { j \in Bucket[Len(CanonSeq[i])] : j # i /\ CanonSeq[j] = CanonSeq[i] /\ NormSeq[j] # NormSeq[i] }
+Injective == idx > 0 =>
+  \/ Rivals(idx) = {}
+  \/ ~PrintT(<< "COLLISION", ToJson([a |-> DomSeq[idx], b |-> DomSeq[CHOOSE j \in Rivals(idx) : TRUE], text |-> CanonSeq[idx]]) >>)
+Relexes == idx > 0 =>
+  \/ RelexesP(DomSeq[idx], Deviations)
+  \/ ~PrintT(<< "UNREADABLE", ToJson([a |-> DomSeq[idx], text |-> CanonSeq[idx]]) >>)
+
+(* emission: the program, its canonical text by the design and by the code-faithful     *)
+(* printer (recorded deviations on), the deviations that make them differ                *)
+CanonEmit == idx > 0 =>
+  LET p == DomSeq[idx]
+      design == Canon(p, {})
+      code == Canon(p, KnownDevs)
+      hit == { d \in KnownDevs : Canon(p, {d}) # design \/ ~RelexesP(p, {d}) }
+  IN PrintT(<< "REPLAY", ToJson([part |-> "canon", prog |-> p, design |-> design, code |-> code,
+                                 devs |-> SetToSeq(hit), n |-> idx]) >>)
+
+(* ========================================================================== *)
+(* Part (b): the comment placer of `ucg fmt`.                                  *)
+(*                                                                            *)
+(* Code transcribed:                                                          *)
+(*   tokenizer/mod.rs:535-596   comment groups -> CommentMap (keyed by the    *)
+(*                              line of the group's LAST comment)             *)
+(*   printer/mod.rs:50-55       with_comment_map: pending = reversed keys     *)
+(*   printer/mod.rs:82-130      print_comment_group, render_missed_comments,  *)
+(*                              render_comment_if_needed, has_comment         *)
+(*   printer/mod.rs:575-633     render_stmt (prefix newline), render (tail)   *)
+(*                                                                            *)
+(* A LAYOUT is the line skeleton of a source file: per line what code sits on *)
+(* it (a statement head "s", an inner node "n" of the statement above, or     *)
+(* nothing "-") and whether a comment ends the line.  A generator builds the  *)
+(* layouts line by line; the machine then runs the tokenizer's grouping, the  *)
+(* printer's visits one loop iteration per step, and - when every comment of  *)
+(* the output sits on a line of its own between statements - lays the output  *)
+(* out again and formats it a second time.                                    *)
+(*                                                                            *)
+(* Which AST nodes call what (printer/mod.rs, transcribed into Visits):       *)
+(*   render_comment_if_needed(line)  ["need": flush every group <= line]      *)
+(*     render_stmt (stmt.pos), render_expr (every expression, expr.pos),      *)
+(*     list element, call argument, cast target, tuple/copy/select/module     *)
+(*     field (name line, and value line when different)                       *)
+(*   has_comment(l) => render_missed_comments(l)  ["guard": flush every group *)
+(*     <= l iff some group < l]                                               *)
+(*     Range (end.pos, BEFORE start is printed), Select (val.pos, then        *)
+(*     default.pos, before `select`), Import/Include (path.pos), Not (pos)    *)
+(*   has_comment(l) only for layout (newline / indent, no emission):          *)
+(*     Binary right operand, TRACE, fail, format single argument, first       *)
+(*     list-form format argument, map/filter/reduce arguments, Grouped        *)
+(*   render(): after the last statement render_missed_comments(max key + 1)   *)
+(* In a layout every "s"/"n" line is one "need" visit; the extra "look" puts  *)
+(* one "guard" visit of the statement's last node line behind its head (the   *)
+(* Range / Select pattern).                                                   *)
+(* ========================================================================== *)
 (* ---- comment text ---------------------------------------------------------- *)
 (* the text after `//` as a sequence of character classes: "sp" blank, "x" other *)
 DefFrag == << "sp", "x" >>
@@ -229,8 +701,8 @@ GenLine  == m.ph = "gen" /\ Len(m.lay.lines) < MaxL /\
             \E k \in LineKinds : ValidPrefix(Append(m.lay.lines, k)) /\ m' = [m EXCEPT !.lay.lines = Append(@, k)]
 GenStart == m.ph = "gen" /\ Complete(m.lay.lines) /\ \E lay \in Spiced(m.lay.lines) : m' = InitM(lay)
 
-PlaceInit == m = [InitM(Lay(<< >>, FALSE, 0)) EXCEPT !.ph = "gen"]
-PlaceNext == GenLine \/ GenStart \/ Tokenize \/ Enter \/ EmitGroup \/ Leave \/ Tail_ \/ TailDone \/ Reformat \/ Stop
+PlaceInit == m = [InitM(Lay(<< >>, FALSE, 0)) EXCEPT !.ph = "gen"] /\ blk = 0 /\ idx = 0
+PlaceNext == UNCHANGED << blk, idx >> /\ (GenLine \/ GenStart \/ Tokenize \/ Enter \/ EmitGroup \/ Leave \/ Tail_ \/ TailDone \/ Reformat \/ Stop)
 
 (* the same steps as a function, for the code-faithful prediction *)
 StepF(x, devs) ==
@@ -287,5 +759,6 @@ PlaceEmit == Done /\ LayHash(m.lay0) % EmitEvery = EmitPhase % EmitEvery =>
       hit == IF View(code) = View(design) THEN {} ELSE {d \in KnownDevs : View(RunF(InitM(m.lay0), {d})) # View(design)}
   IN PrintT(<< "REPLAY", ToJson([part |-> "place", lay |-> m.lay0, src |-> m.src,
                                  map |-> [j \in 1..Len(Groups(m.lay0, KnownDevs)) |-> Groups(m.lay0, KnownDevs)[j].ln],
+                                 dmap |-> [j \in 1..Len(Groups(m.lay0, {})) |-> Groups(m.lay0, {})[j].ln],
                                  design |-> View(design), code |-> View(code), devs |-> SetToSeq(hit)]) >>)
 =============================================================================
